@@ -7,4 +7,8 @@ cp /repo/go.sum /verif/go.sum
 mkdir -p .build/setup evidence replays
 go run ./cmd/instrument -repo /repo -out .build/setup
 go build -overlay .build/setup/overlay.json -tags verif -o .build/setup/vcheck ./cmd/vcheck
+# warm the caches of the C09 builds (yield points; race detector)
+go run ./cmd/instrument -repo /repo -out .build/setup-points -points
+go build -overlay .build/setup-points/overlay.json -tags verif,verifpoints -o .build/setup-points/vcheck ./cmd/vcheck
+go build -race -overlay .build/setup/overlay.json -tags verif -o .build/setup/vcheck-race ./cmd/vcheck
 echo "setup ok"
